@@ -5,8 +5,10 @@ pub mod c05;
 pub mod c06;
 pub mod c07;
 pub mod c08;
+pub mod c10;
 pub mod c13;
 pub mod c14;
+pub mod c16;
 pub mod c17;
 pub mod c19;
 pub mod selftest;
@@ -23,8 +25,10 @@ pub fn dispatch(name: &str, args: &[String]) -> i32 {
 		"c06" => c06::run(args),
 		"c07" => c07::run(args),
 		"c08" => c08::run(args),
+		"c10" => c10::run(args),
 		"c13" => c13::run(args),
 		"c14" => c14::run(args),
+		"c16" => c16::run(args),
 		"c17" => c17::run(args),
 		"c19" => c19::run(args),
 		"replay" => replay(args),
@@ -54,8 +58,10 @@ fn replay(args: &[String]) -> i32 {
 		"c06" => c06::replay(&v["replay"]),
 		"c07" => c07::replay(&v["replay"]),
 		"c08" => c08::replay(&v["replay"]),
+		"c10" => c10::replay(&v["replay"]),
 		"c13" => c13::replay(&v["replay"]),
 		"c14" => c14::replay(&v["replay"]),
+		"c16" => c16::replay(&v["replay"]),
 		"c17" => c17::replay(&v["replay"]),
 		"c19" => c19::replay(&v["replay"]),
 		_ => {
